@@ -379,10 +379,24 @@ class Ctx:
             ob.status, ob.backend = "proved", "simplify"
         else:
             self.solver.push()
-            self.solver.set("timeout", self.oblig_timeout_ms)
             self.solver.add(z3.Not(t))
+            # portfolio: z3 briefly, then cvc5 (much stronger on string constraints), then z3 with the full budget
+            self.solver.set("timeout", min(3000, self.oblig_timeout_ms))
             r = str(self.solver.check())
-            if r == "unsat":
+            if r == "unknown" and self.use_cvc5 and self.oblig_timeout_ms > 3000:
+                rc = _cvc5_check(self.pc + [z3.Not(t)], min(20.0, self.oblig_timeout_ms / 1000.0))
+                if rc == "unsat":
+                    ob.status, ob.backend = "proved", "cvc5"
+                    r = "cvc5-unsat"
+                elif rc == "sat":
+                    self.solver.set("timeout", self.oblig_timeout_ms)
+                    r = str(self.solver.check())  # z3 must produce the model (or stay unknown)
+                else:
+                    self.solver.set("timeout", self.oblig_timeout_ms)
+                    r = str(self.solver.check())
+            if r == "cvc5-unsat":
+                pass
+            elif r == "unsat":
                 ob.status, ob.backend = "proved", "z3"
             elif r == "sat":
                 ob.backend = "z3"
